@@ -16,7 +16,7 @@ func init() {
 		"C20-lookup (what handleModify's arms test and index with is looked up anew for every change: no loop-carried value of the loop over m.Changes), C20-arms (handleModify has an arm for add, delete and replace; on every path where the attribute exists - for add also where it does not - the arm performs a store into memory reachable from the matched entry, whose value derives from the change's values for add/replace), " +
 		"C20-pairing (add/delete report success only after the store that implements them, and no such store happens on a path that reports another code), " +
 		"C20-codes (add on an existing DN -> entryAlreadyExists under the found test; delete/modify default noSuchObject), " +
-		"C20-search-source (entries written by the search handlers are elements of the directory's lists with all attributes in slice order; find returns elements of the list it is given, in order). Does not decide match()'s substring semantics, cross-operation histories, concurrency (C15)."
+		"C20-search-source (entries written by the search handlers are elements of the directory's lists with all attributes in slice order; find returns elements of the list it is given, in order), C20-set (SetUsers / SetGroups store their parameter or a fresh copy of it, never something built on the previous population's backing array). Does not decide match()'s substring semantics, cross-operation histories, concurrency (C15)."
 }
 
 func handlerClosure(c *Ctx, name string) *ssa.Function {
@@ -855,11 +855,119 @@ func checkC20(c *Ctx) {
 		}
 		R.Count("C20-stateless/handlers", n)
 	}
+	// ---- C20-set: a Set* call replaces the population by exactly the entries it is given: what SetUsers / SetGroups
+	// store into d.users / d.groups is their (variadic) parameter itself or a fresh copy of it - never something built
+	// on top of the previous population's backing array, which Users() / Groups() (and Defaults) share with the caller:
+	// overwriting that array in place changes slices the caller still holds and hands back later.
+	for _, sf := range []struct{ fn, field string }{{"(*Directory).SetUsers", "users"}, {"(*Directory).SetGroups", "groups"}} {
+		f := c.P.Func(TD, sf.fn)
+		if f == nil || len(f.Blocks) == 0 || len(f.Params) != 2 {
+			continue
+		}
+		sts := fieldStores([]*ssa.Function{f}, TD, "Directory", sf.field)
+		for _, fs := range sts {
+			why := freshCopyOf(fs.Store.Val, f.Params[1], 0)
+			R.Check(why == "", "C20-set", fname(f)+": d."+sf.field+" <- the entries given", c.pos(fs.Store), "the parameter itself or a fresh copy of it", "d."+sf.field+" is not set to the given entries or a fresh copy of them ("+why+"): the directory would write into memory the caller still holds (the slice Users()/Groups() returned or Defaults supplied), so a population handed back later is not the one the caller saved")
+		}
+		if len(sts) == 0 {
+			R.Fail("C20-set", fname(f)+": d."+sf.field+" <- the entries given", c.P.Pos(f.Pos()), "no store to d."+sf.field+" found in "+fname(f))
+		}
+	}
+	R.Floor("C20-set", 2)
 	R.Floor("C20-lockrelease", 4)
 	R.Floor("C20-arms", 3)
 	R.Floor("C20-pairing", 2)
 	R.Floor("C20-search-source", 2)
 	R.NotDecided = append(R.NotDecided, "whole-history consistency against a reference model", "match()'s substring semantics", "concurrent histories (C15)")
+}
+
+// freshCopyOf: v is the slice parameter p itself, nil, or a copy of p in
+// storage allocated for it (append onto nil / an empty literal, slices.Clone,
+// make + copy), possibly produced by a module helper that is handed p.
+// Returns "" when it is, otherwise what it is instead.
+func freshCopyOf(v ssa.Value, p ssa.Value, depth int) string {
+	if depth > 4 {
+		return "too deep"
+	}
+	v = an.Strip(v)
+	if v == an.Strip(p) || an.IsNilConst(v) {
+		return ""
+	}
+	switch x := v.(type) {
+	case *ssa.Phi:
+		for _, e := range x.Edges {
+			if why := freshCopyOf(e, p, depth+1); why != "" {
+				return why
+			}
+		}
+		return ""
+	case *ssa.MakeSlice:
+		// make([]T, len(p)) filled by copy(dst, p)
+		ok := false
+		for _, ref := range *x.Referrers() {
+			if call, isC := ref.(*ssa.Call); isC {
+				if b, isB := call.Common().Value.(*ssa.Builtin); isB && b.Name() == "copy" && call.Common().Args[0] == ssa.Value(x) && an.Strip(call.Common().Args[1]) == an.Strip(p) {
+					ok = true
+				}
+			}
+		}
+		if ok {
+			return ""
+		}
+		return "a made slice that is not filled by copy(dst, the entries)"
+	case *ssa.Call:
+		cc := x.Common()
+		if b, isB := cc.Value.(*ssa.Builtin); isB && b.Name() == "append" && len(cc.Args) == 2 {
+			if an.Strip(cc.Args[1]) != an.Strip(p) {
+				return "append of something other than the entries"
+			}
+			base := an.Strip(cc.Args[0])
+			if an.IsNilConst(base) {
+				return ""
+			}
+			if ms, isM := base.(*ssa.MakeSlice); isM {
+				if k, isK := an.IntConst(ms.Len); isK && k == 0 {
+					return ""
+				}
+			}
+			if sl, isS := base.(*ssa.Slice); isS {
+				if al, isA := sl.X.(*ssa.Alloc); isA && len(*al.Referrers()) == 1 {
+					return "" // empty literal []T{}
+				}
+			}
+			return "appended onto " + an.Path(cc.Args[0]) + ", whose backing array is reused"
+		}
+		g := cc.StaticCallee()
+		if g == nil {
+			return "result of a dynamic call"
+		}
+		if (an.FuncPkgPath(g) == "slices" || an.FuncPkgPath(g) == "golang.org/x/exp/slices") && (g.Name() == "Clone" || g.Origin() != nil && g.Origin().Name() == "Clone") && len(cc.Args) == 1 && an.Strip(cc.Args[0]) == an.Strip(p) {
+			return ""
+		}
+		if an.InModule(g) && len(g.Blocks) > 0 {
+			idx := -1
+			for i, a := range cc.Args {
+				if an.Strip(a) == an.Strip(p) && i < len(g.Params) {
+					idx = i
+				}
+			}
+			if idx < 0 {
+				return fname(g) + " is not given the entries"
+			}
+			for _, ret := range an.Returns(g) {
+				res := an.ReturnResults(ret)
+				if len(res) != 1 {
+					return fname(g) + " returns more than one value"
+				}
+				if why := freshCopyOf(res[0], g.Params[idx], depth+1); why != "" {
+					return "in " + fname(g) + ": " + why
+				}
+			}
+			return ""
+		}
+		return "result of " + g.String()
+	}
+	return an.Path(v)
 }
 
 // entryFromDirectory: v is an element of d.users / d.groups / d.tokenGroups[...] or of
